@@ -496,6 +496,12 @@ func inputKeyedComposableRunnable(key string, r *composableRunnable) *composable
 			// node's input (the real input was consumed before the interrupt) and the graph ignores it
 			v = r.inputZeroValue()
 		}
+		// the value under the key is only known at request time: check it like any interface-typed connection
+		if r.inputType != nil && r.inputConverter.invoke != nil && (v != nil || r.inputType.Kind() != reflect.Interface) {
+			if v, err = r.inputConverter.invoke(v); err != nil {
+				return nil, err
+			}
+		}
 		out, err := i(ctx, v, opts...)
 		if err != nil {
 			return nil, err
